@@ -176,6 +176,14 @@ func (fw *faultWorld) serve(g int, b *memnet.Conn) {
 		}
 		fw.mu.Lock()
 		fw.emit(map[string]any{"ev": "reply", "g": g})
+		if cut && pt == "after-reply" && kind == "with-reply" {
+			// the reply and the close in one go: the client finds the reply and the end of the stream together
+			fw.fire(g)
+			b.Write(out)
+			fw.mu.Unlock()
+			bye()
+			return
+		}
 		b.Write(out)
 		fw.mu.Unlock()
 		if cut && pt == "after-reply" {
